@@ -216,3 +216,39 @@ REG.spec("esc_name", _esc_smt(_NAME_SPECIAL, 0x21, "name"), _esc_native(_NAME_SP
          "RFC 1035 5.1 text of a label: \" ( ) . ; \\ @ $ are backslash-quoted, 0x21..0x7E printed, everything else \\DDD")
 REG.spec("esc_qstring", _esc_smt(_QSTR_SPECIAL, 0x20, "qstring"), _esc_native(_QSTR_SPECIAL, 0x20),
          "text of a quoted character-string: \" and \\ are backslash-quoted, 0x20..0x7E printed, everything else \\DDD")
+
+
+def snap_smt(I, ref, old_ref):
+    from .sym import SRef
+
+    if not isinstance(ref, SRef):
+        raise Unsupported("snap(ref, old): heap reference expected")
+    if isinstance(old_ref, SRef):
+        return SRef(ref.cls, ref.id, old_ref.heap)
+    h = getattr(old_ref, "heap_snapshot", None) or getattr(old_ref, "heap", None)
+    if h is None:
+        raise Unsupported("snap(ref, old): the second argument is not a pre-state value")
+    return SRef(ref.cls, ref.id, h)
+
+
+REG.spec("snap", snap_smt, lambda r, o: r, "the object r as it was in the heap snapshot that old_* values refer to")
+
+
+def cur_smt(I, ref):
+    from .sym import SRef
+
+    if not isinstance(ref, SRef):
+        raise Unsupported("cur(ref): heap reference expected")
+    return SRef(ref.cls, ref.id, None)
+
+
+REG.spec("cur", cur_smt, lambda r: r, "the object r in the current heap (r may have been read from a snapshot)")
+
+
+def ref_smt(I, clsname, ident):
+    from .sym import SRef
+
+    return SRef(I.reg.resolve(clsname), to_z3(ident), None)
+
+
+REG.spec("ref", ref_smt, lambda c, i: i, "the object of heap class c with identity i, in the current heap")
